@@ -4,7 +4,8 @@ Domain: generated databases (vlib/models/clidb.py: 1..3 layers, 1..5 services pe
 positive/negative responses made of CODED-CONST and VALUE parameters with DOPs, optional
 base-variant -> ecu-variant inheritance, communication parameters) and the shipped
 examples/somersault.pdx, each x one edit (identity / add / delete / rename a service / change byte
-position, bit length, coded value, semantic, data type or linked DOP of one parameter).  Both versions
+position, bit length, coded value, semantic, data type or linked DOP of one parameter / modify a DOP in
+place: same id, short name and coded type, other COMPU-METHOD or PHYSICAL-TYPE).  Both versions
 are serialised to XML and loaded separately.
 
 Oracle (metamorphic, DESIGN C18): the tool is driven the way `odxtools compare -db` drives it
@@ -37,7 +38,8 @@ ASSUMPTIONS = [
     "find and decode tools are not covered (the statement only speaks about comparison and the layer overview)",
 ]
 MUST_HIT = ["edit:identity", "edit:add", "edit:delete", "edit:rename", "edit:byte_position", "edit:bit_length",
-            "edit:coded_value", "edit:semantic", "edit:data_type", "edit:linked_dop",
+            "edit:coded_value", "edit:semantic", "edit:data_type", "edit:linked_dop", "edit:dop_modified",
+            "dop-modified-used", "dop-modified-physical-type",
             "role:request", "role:pos", "role:neg", "param:CC", "param:VAL",
             "shared-first-byte", "inherited-layer-affected", "src:gen", "src:somersault", "comparams>0",
             "variant-vs-variant"]
@@ -173,6 +175,21 @@ def plan_generated(desc, edit) -> Plan:
                 pl.vv.append((pn, ln, dict(EMPTY, deleted=own)))
     if k == "identity":
         return pl
+    if k == "dop_modified":
+        d_old = desc["layers"][edit["layer"]]["dops"][edit["dop"]]
+        users = M.dop_users(desc, d_old["name"])
+        for ln in pl.layers:
+            pl.expected[ln]["changed"] = list(users[ln])
+        used = [ln for ln in pl.layers if users[ln]]
+        pl.classes.add("dop-modified-used" if used else "dop-modified-unused")
+        if len(used) > 1:
+            pl.classes.add("inherited-layer-affected")
+        if max((len(users[ln]) for ln in pl.layers), default=0) > 1:
+            pl.classes.add("dop-modified-several-services")
+        if edit["new"]["phys"] != d_old.get("phys", d_old["type"]):
+            pl.classes.add("dop-modified-physical-type")
+        pl.nontrivial = any(pl.counts_old[ln]["services"] >= 2 for ln in used)
+        return pl
     li = edit["layer"]
     affected = [pl.layers[i] for i in M.layers_containing(desc, li)]
     if len(affected) > 1:
@@ -239,10 +256,16 @@ def plan_somersault(edit) -> Plan:
             pl.classes.add("shared-first-byte")
     if k == "identity":
         return pl
-    sid = edit["service"]
+    sid = edit.get("service")
     old_eff = {M._sn(l): {s.get("ID"): M._sn(s) for s in M.eff_services(old, l)} for l in old.layers()}
     new_eff = {M._sn(l): {s.get("ID"): M._sn(s) for s in M.eff_services(new, l)} for l in new.layers()}
     affected_ids = [sid]
+    if k == "dop_modified":
+        msgs = M.pdx_direct_dop_users(old, edit["dop"])
+        if not msgs:
+            raise ValueError("DOP is not (only) linked directly by VALUE parameters")
+        affected_ids = sorted({i for m in msgs for i in old.services_using(m)})
+        pl.classes.add("dop-modified-used")
     if k in FIELD:
         svc = M.find_by_id(old, "DIAG-SERVICE", sid)
         msg = M.svc_message(old, svc, edit["role"])
@@ -538,6 +561,10 @@ def _strategies():
             dops = [{"name": f"d{li}_{k}", "bits": draw(st.sampled_from([8, 8, 16])),
                      "type": draw(st.sampled_from(M.INT_TYPES))} for k in range(nd)]
             dops[1]["bits"] = dops[0]["bits"]
+            for d in dops:
+                if draw(st.integers(0, 3)) == 0:
+                    d["compu"] = {"offset": draw(st.integers(-2, 2)), "factor": draw(st.sampled_from([1, 2, 3]))}
+                    d["phys"] = draw(st.sampled_from([d["type"], "A_FLOAT64"]))
             avail = (layers[0]["dops"] if parent == 0 else []) + dops
             ns = draw(st.integers(1, 5 if li == 0 else 3))
             services = []
@@ -559,6 +586,14 @@ def _strategies():
                     "service": draw_service(draw, avail, f"s{sc}", used_px)}
         elif kind == "delete":
             edit = {"kind": "delete", "layer": li, "service": draw(st.integers(0, len(lay["services"]) - 1))}
+        elif kind == "dop_modified":
+            # prefer a DOP that is linked by some parameter (3 of 4 draws), any DOP otherwise
+            every = [(a, b) for a, l in enumerate(layers) for b in range(len(l["dops"]))]
+            used = [(a, b) for a, b in every if any(M.dop_users(desc, layers[a]["dops"][b]["name"]).values())]
+            pool = used if (used and draw(st.integers(0, 3)) > 0) else every
+            a, b = pool[draw(st.integers(0, len(pool) - 1))]
+            mods = M.dop_modifications(layers[a]["dops"][b])
+            edit = {"kind": "dop_modified", "layer": a, "dop": b, "new": mods[draw(st.integers(0, len(mods) - 1))]}
         elif kind == "rename":
             si = draw(st.integers(0, len(lay["services"]) - 1))
             edit = {"kind": "rename", "layer": li, "service": si, "name": "r_" + lay["services"][si]["name"],
@@ -618,13 +653,14 @@ def run_shard(spec, seed, tier):
         mine = [c for i, c in enumerate(cases) if i % N_SOM == spec[1]]
         for c in mine:
             fails, classes, nontrivial = evaluate(c)
-            res.note(c, nontrivial, classes, sample=(c["edit"]["kind"] in ("rename", "linked_dop")))
+            res.note(c, nontrivial, classes, sample=(c["edit"]["kind"] in ("rename", "linked_dop", "dop_modified")))
             res.failures.extend(_filter_known(fails, kf, res)[:3])
         res.stages["enumeration"] = len(mine)
         res.exhaustive_subspaces.append(
             f"all {len(cases)} single edits of examples/somersault.pdx the XML-level model can express "
             "(delete/rename of every unreferenced service, one added copy per service, semantic / byte position / "
-            "coded value / data type / bit length / linked DOP of every CODED-CONST and VALUE parameter)")
+            "coded value / data type / bit length / linked DOP of every CODED-CONST and VALUE parameter, in-place "
+            "modification of every DOP that is only linked directly by VALUE parameters)")
         return res
 
     n = 150 if tier == "quick" else 1500
